@@ -923,6 +923,137 @@ theorem read_n_keeps_data_on_exception (f : BF ChanX) (n : Nat) :
       rw [← h1]
       simp [pendingX, take_append_or _ _ _ h3, drop_append_or _ _ _ h3]
 
+private theorem readAllLoopX (fuel : Nat) (f : BF ChanX) (acc : Bytes) (hd : 1 ≤ f.dflt)
+    (hf : f.s.c.inp.length < fuel) :
+    (∀ out, (readAllLoop chanOpsX fuel f acc).2 = .ok out →
+        out = acc ++ f.s.c.inp ∧ (readAllLoop chanOpsX fuel f acc).1.s.c.inp = [] ∧
+        (readAllLoop chanOpsX fuel f acc).1.rbuf = f.rbuf) ∧
+    (∀ e, (readAllLoop chanOpsX fuel f acc).2 = .error e →
+        (readAllLoop chanOpsX fuel f acc).1.rbuf ++ (readAllLoop chanOpsX fuel f acc).1.s.c.inp = acc ++ f.s.c.inp) := by
+  induction fuel generalizing f acc with
+  | zero => omega
+  | succ fuel ih =>
+    rw [readAllLoop]
+    have hk := grant_pos f.s.c.rg f.dflt hd
+    by_cases hfail : ∃ rest, f.s.fails = true :: rest
+    · obtain ⟨rest, hfl⟩ := hfail
+      rw [chanOpsX_read_fail f.s f.realpos f.dflt rest hfl]
+      exact ⟨fun out h => (by cases h), fun e _ => rfl⟩
+    · rw [chanOpsX_read_ok f.s f.realpos f.dflt (fun rest h => hfail ⟨rest, h⟩)]
+      simp only
+      by_cases he : (f.s.c.inp.take (grant f.s.c.rg f.dflt)).isEmpty = true
+      · have hnil := (take_isEmpty_iff _ _ hk).1 he
+        rw [if_pos he]
+        refine ⟨fun out h => ?_, fun e h => (by cases h)⟩
+        injection h with h
+        subst h
+        simp [hnil]
+      · rw [if_neg he]
+        have hne : f.s.c.inp ≠ [] := fun h => he ((take_isEmpty_iff _ _ hk).2 h)
+        have hlen : 0 < f.s.c.inp.length := List.length_pos_iff.2 hne
+        have := ih
+          { f with s := { c := { f.s.c with inp := f.s.c.inp.drop (grant f.s.c.rg f.dflt), rg := f.s.c.rg.tail },
+                          fails := f.s.fails.tail },
+                   realpos := f.realpos + (f.s.c.inp.take (grant f.s.c.rg f.dflt)).length,
+                   pos := f.pos + (f.s.c.inp.take (grant f.s.c.rg f.dflt)).length }
+          (acc ++ f.s.c.inp.take (grant f.s.c.rg f.dflt)) hd (by simp; omega)
+        simp only [List.append_assoc, List.take_append_drop] at this
+        exact this
+
+/-- **read() over a raising stream** (the code repaired in /repo 3937ccc): a call that returns hands out
+    everything that was pending; a call that raises returns nothing and leaves EVERY byte it had fetched (and the
+    old read-ahead) ahead of the caller. -/
+theorem read_all_keeps_data_on_exception (f : BF ChanX) (hd : 1 ≤ f.dflt) :
+    (∀ out, (BufFile.read chanOpsX f none).2 = .ok out →
+        out = pendingX f ∧ pendingX (BufFile.read chanOpsX f none).1 = []) ∧
+    (∀ e, (BufFile.read chanOpsX f none).2 = .error e → pendingX (BufFile.read chanOpsX f none).1 = pendingX f) := by
+  unfold BufFile.read
+  by_cases hc : f.closed = true
+  · simp [hc]
+  rw [if_neg hc]
+  by_cases hr : (!f.rd) = true
+  · simp [hr]
+  rw [if_neg hr]
+  have hsync : syncForRead chanOpsX f = (f, .ok ()) := by simp [syncForRead, chanOpsX]
+  rw [hsync]
+  simp only
+  obtain ⟨h1, h2⟩ := readAllLoopX (chanOpsX.bound f.s f.realpos + 1)
+    { f with rbuf := [], pos := f.pos + f.rbuf.length } f.rbuf hd (by simp [chanOpsX])
+  refine ⟨fun out h => ?_, fun e h => ?_⟩
+  · obtain ⟨a1, a2, a3⟩ := h1 out h
+    exact ⟨a1, by simp only [pendingX]; rw [a3, a2]; rfl⟩
+  · exact h2 e h
+
+private theorem readlineLoopX_err (size : Option Nat) (fuel : Nat) (f : BF ChanX) (line : Bytes)
+    (hb : 1 ≤ f.bufsize) (hf : f.s.c.inp.length < fuel) :
+    ∀ e, (readlineLoop chanOpsX size fuel f line).2 = .error e →
+      (readlineLoop chanOpsX size fuel f line).1.rbuf ++ (readlineLoop chanOpsX size fuel f line).1.s.c.inp
+        = line ++ f.s.c.inp := by
+  induction fuel generalizing f line with
+  | zero => omega
+  | succ fuel ih =>
+    rw [readlineLoop]
+    cases hl : rlLimit size f.bufsize line with
+    | none => intro e h; cases h
+    | some n =>
+      simp only
+      have hn : 1 ≤ n := by
+        cases size with
+        | none => simp [rlLimit] at hl; omega
+        | some sz =>
+          simp only [rlLimit] at hl
+          split at hl
+          · cases hl
+          · injection hl with hl; omega
+      by_cases hc : line.contains LF = true
+      · rw [if_pos hc]; intro e h; cases h
+      · rw [if_neg hc]
+        have hk := grant_pos f.s.c.rg n hn
+        by_cases hfail : ∃ rest, f.s.fails = true :: rest
+        · obtain ⟨rest, hfl⟩ := hfail
+          rw [chanOpsX_read_fail f.s f.realpos n rest hfl]
+          intro e _; rfl
+        · rw [chanOpsX_read_ok f.s f.realpos n (fun rest h => hfail ⟨rest, h⟩)]
+          simp only
+          by_cases he : (f.s.c.inp.take (grant f.s.c.rg n)).isEmpty = true
+          · rw [if_pos he]; intro e h; cases h
+          · rw [if_neg he]
+            have hne : f.s.c.inp ≠ [] := fun h => he ((take_isEmpty_iff _ _ hk).2 h)
+            have hlen : 0 < f.s.c.inp.length := List.length_pos_iff.2 hne
+            have := ih
+              { f with s := { c := { f.s.c with inp := f.s.c.inp.drop (grant f.s.c.rg n), rg := f.s.c.rg.tail },
+                              fails := f.s.fails.tail },
+                       realpos := f.realpos + (f.s.c.inp.take (grant f.s.c.rg n)).length }
+              (line ++ f.s.c.inp.take (grant f.s.c.rg n)) hb (by simp; omega)
+            simp only [List.append_assoc, List.take_append_drop] at this
+            exact this
+
+/-- **readline() / __next__ over a raising stream** (repaired code): a call that raises because a fetch raised
+    returns nothing and leaves every byte it had fetched, and the old read-ahead, ahead of the caller. -/
+theorem readline_keeps_data_on_exception (f : BF ChanX) (size : Option Nat) (hb : 1 ≤ f.bufsize)
+    (hc : f.closed = false) (hr : f.rd = true) :
+    ∀ e, (readline chanOpsX f size).2 = .error e → pendingX (readline chanOpsX f size).1 = pendingX f := by
+  unfold readline
+  rw [if_neg (by simp [hc]), if_neg (by simp [hr])]
+  have hsync : syncForRead chanOpsX f = (f, .ok ()) := by simp [syncForRead, chanOpsX]
+  rw [hsync]
+  simp only
+  intro e h
+  have hl := readlineLoopX_err size (chanOpsX.bound f.s f.realpos + 1) f f.rbuf hb (by simp [chanOpsX])
+  rcases hres : readlineLoop chanOpsX size (chanOpsX.bound f.s f.realpos + 1) f f.rbuf with ⟨f1, r1⟩
+  rw [hres] at h hl
+  cases r1 with
+  | error e1 =>
+    simp only [readlinePost] at h ⊢
+    exact hl e1 rfl
+  | ok v =>
+    exfalso
+    cases v with
+    | eof l => simp [readlinePost] at h
+    | brk l tr =>
+      simp only [readlinePost] at h
+      split at h <;> cases h
+
 /-- a raising stream for the witnesses: `abcdefgh` in 1-byte pieces, the third fetch raises -/
 def wX (mode : String) : BF ChanX :=
   setMode { s := { c := { inp := "abcdefgh".toUTF8.toList, rg := [0, 0, 0, 0], wg := [] },
